@@ -13,6 +13,7 @@ import IsoVerif.Model.Interval
 import IsoVerif.Model.Profiles
 import IsoVerif.Model.C11Symmetry
 import IsoVerif.Model.C11Polya
+import IsoVerif.Model.C11Canonical
 import IsoVerif.Gen.EventClasses
 
 namespace IsoVerif.Driver.C11
@@ -95,6 +96,20 @@ def ops : List (String × Handler) := [
       pure (oInt (shiftPolya (← gl j) (← jNat (← arg j "count")) (← gP j)))),
   ("P.shift_polyt", fun j => do
       pure (oInt (shiftPolyt (← gl j) (← jNat (← arg j "count")) (← gP j)))),
+  -- splice-site strand detection over the generated canonical tables
+  ("K.mirror_sites", fun j => do
+      let p := mirrorSites (← jStr (← arg j "l"), ← jStr (← arg j "r"))
+      pure (Json.arr #[ofStr p.1, ofStr p.2])),
+  ("K.intron_strand", fun j => do
+      pure (ofStr (intronStrandOfSites (← jStr (← arg j "l"), ← jStr (← arg j "r"))))),
+  ("K.sites_of_intron", fun j => do
+      let p := sitesOfIntron (← jStr (← arg j "ref")).toList (← jNat (← arg j "a")) (← jNat (← arg j "b"))
+      pure (Json.arr #[ofStr p.1, ofStr p.2])),
+  ("K.strand", fun j => do
+      let l ← jList (jPair jStr jStr) (← arg j "sites")
+      pure (Json.mkObj [("get_strand", ofStr (strandOfSites l)),
+                        ("detector", ofStr (detectorStrand l (← jBool (← arg j "has_polya")) (← jBool (← arg j "has_polyt")))),
+                        ("clean", ofStr (detectorCleanStrand l))])),
   -- translation: primitives
   ("S.cmp", fun j => do
       let k ← gK j; let x ← jInt (← arg j "x"); let y ← jInt (← arg j "y")
